@@ -222,6 +222,9 @@ func checkCLI(cc CLICase) error {
 		"--batch", strconv.Itoa(c.Batch), "--workers", strconv.Itoa(c.Workers),
 		"--readers", strconv.Itoa(c.Readers), "--batch-buffer", strconv.Itoa(c.BatchBuffer),
 		"-e", c.Extract}
+	if c.UseGunzip() && !cc.Stdin { // rare refuses -z on stdin (usage error)
+		args = append(args, "-z")
+	}
 	switch c.Matcher.Kind {
 	case "regex":
 		args = append(args, "-m", c.Matcher.Pattern)
